@@ -639,4 +639,182 @@ class ValuesUnderIntervals(Harness):
         return None if got == exp else f"{skel['what']} under intervals {ivs} of per-chromosome data {dense}: {got}, expected {exp}"
 
 
-HARNESSES = [Coords(), GenomeOps(), Binned(), ValuesUnderIntervals()]
+class GeometryOps(Harness):
+    """the Geometry helper (chromosome names given as text): mask, pileup, clip, sort and merge per chromosome"""
+    name = "geometry"
+    functions = ("Geometry.get_mask/get_pileup/clip/sort/merge_intervals", "GlobalOffset.from_local_interval/to_local_interval")
+    bounds = {"quick": "genome {chr1:3, chr2:2} and {chr1:2, chr10:1, chr2:3}; 1-2 intervals on chosen chromosomes (in genome order for merge) with "
+                       "symbolic bounds, incl. an interval ending at a chromosome end followed by one starting at 0 of the next; merge distance 0-1",
+              "thorough": "3 intervals"}
+
+    def skeletons(self, tier, seed):
+        out = []
+        combos = {"g2": [[0], [1], [0, 0], [0, 1], [1, 1]], "g3": [[0, 2], [1, 2], [0, 1]]}
+        if tier == "thorough":
+            combos["g2"] += [[0, 0, 1], [0, 1, 1]]
+            combos["g3"] += [[0, 1, 2]]
+        for g, sets in combos.items():
+            for ivs in sets:
+                for op in ("mask", "pileup", "clip", "sort", "merge0", "merge1"):
+                    out.append(dict(genome=g, ivs=ivs, op=op))
+                if len(ivs) == 2 and ivs[0] != ivs[1]:
+                    out.append(dict(genome=g, ivs=ivs[::-1], op="sort"))
+        return out
+
+    def inputs(self, skel, V):
+        from checks.C09 import GENOMES as G9
+        sizes = list(G9[skel["genome"]].values())
+        for i, c in enumerate(skel["ivs"]):
+            if skel["op"] == "clip":
+                s = V.int(f"s{i}", -2, sizes[c] - 1); e = V.int(f"e{i}", 1, sizes[c] + 2)
+            else:
+                s = V.int(f"s{i}", 0, sizes[c] - 1); e = V.int(f"e{i}", 1, sizes[c])
+            V.assume(s.t < e.t)
+            if skel["op"].startswith("merge") and i and skel["ivs"][i - 1] == c:
+                V.assume(s.t >= V.vars[f"s{i-1}"].t)        # precondition of merging: sorted by start within a chromosome
+
+    def call(self, skel, x, ctx):
+        from bionumpy.genomic_data.geometry import Geometry
+        from bionumpy.datatypes import Interval
+        from checks.C09 import GENOMES as G9
+        genome = G9[skel["genome"]]
+        names = list(genome)
+        m = len(skel["ivs"])
+        g = Geometry(dict(genome))
+        iv = Interval([names[c] for c in skel["ivs"]], ctx.arr([x[f"s{i}"] for i in range(m)], "int64"), ctx.arr([x[f"e{i}"] for i in range(m)], "int64"))
+        op = skel["op"]
+        if op in ("mask", "pileup"):
+            r = g.get_mask(iv) if op == "mask" else g.get_pileup(iv)
+            return dict(dense={k: ctx.lst(v) for k, v in r.to_dict().items()})
+        r = g.clip(iv) if op == "clip" else (g.sort(iv) if op == "sort" else g.merge_intervals(iv, int(op[-1])))
+        return dict(rows=[[nm.to_string() for nm in r.chromosome], ctx.lst(r.start), ctx.lst(r.stop)])
+
+    def _merge_model(self, skel, get, z):
+        """definitional merge per chromosome for up to 3 sorted intervals: list of (chrom index, [member indices] alternatives)"""
+        return None
+
+    def post(self, skel, x, out):
+        if isinstance(out, Exc):
+            return False
+        from checks.C09 import GENOMES as G9
+        genome = G9[skel["genome"]]
+        names = list(genome)
+        sizes = list(genome.values())
+        ivs, m, op = skel["ivs"], len(skel["ivs"]), skel["op"]
+        S = [x[f"s{i}"].t for i in range(m)]
+        E = [x[f"e{i}"].t for i in range(m)]
+        conj = []
+        if op in ("mask", "pileup"):
+            if list(out["dense"]) != names:
+                return False
+            for ci, nm in enumerate(names):
+                col = out["dense"][nm]
+                if len(col) != sizes[ci]:
+                    return False
+                for p in range(sizes[ci]):
+                    cov = [z3.And(S[i] <= p, p < E[i]) for i in range(m) if ivs[i] == ci]
+                    if op == "mask":
+                        conj.append(TB(col[p]) == z_or(cov))
+                    else:
+                        conj.append(TI(col[p]) == sum([z3.If(c, 1, 0) for c in cov], z3.IntVal(0)))
+            return z_and(conj)
+        chroms, starts, stops = out["rows"]
+        if op == "clip":
+            if chroms != [names[c] for c in ivs]:
+                return False
+            for i, c in enumerate(ivs):
+                conj.append(TI(starts[i]) == z3.If(S[i] < 0, 0, S[i]))
+                conj.append(TI(stops[i]) == z3.If(E[i] > sizes[c], sizes[c], E[i]))
+            return z_and(conj)
+        if op == "sort":
+            if len(chroms) != m or sorted(chroms, key=names.index) != chroms:
+                return False
+            # per chromosome: the same intervals, by non-decreasing start
+            for ci, nm in enumerate(names):
+                src = [i for i in range(m) if ivs[i] == ci]
+                got = [j for j in range(m) if chroms[j] == nm]
+                if len(src) != len(got):
+                    return False
+                if len(src) == 1:
+                    conj += [TI(starts[got[0]]) == S[src[0]], TI(stops[got[0]]) == E[src[0]]]
+                elif len(src) == 2:
+                    a, b = src
+                    same = z3.And(TI(starts[got[0]]) == S[a], TI(stops[got[0]]) == E[a], TI(starts[got[1]]) == S[b], TI(stops[got[1]]) == E[b])
+                    swap = z3.And(TI(starts[got[0]]) == S[b], TI(stops[got[0]]) == E[b], TI(starts[got[1]]) == S[a], TI(stops[got[1]]) == E[a])
+                    conj += [z3.Or(same, swap), TI(starts[got[0]]) <= TI(starts[got[1]])]
+                elif len(src) > 2:
+                    return False
+            return z_and(conj)
+        # merge: per chromosome, neighbours (sorted by start) are joined iff next.start <= running stop + d
+        d = int(op[-1])
+        exp = []           # list of alternatives handled by forking on the concrete number of output rows per chromosome
+        pos = 0
+        for ci, nm in enumerate(names):
+            src = [i for i in range(m) if ivs[i] == ci]
+            k = len([c for c in chroms if c == nm])
+            got = list(range(pos, pos + k)); pos += k
+            if not src:
+                if k:
+                    return False
+                continue
+            if len(src) == 1:
+                if k != 1:
+                    return False
+                conj += [TI(starts[got[0]]) == S[src[0]], TI(stops[got[0]]) == E[src[0]]]
+            elif len(src) == 2:
+                a, b = src
+                joined = S[b] <= E[a] + d
+                if k == 1:
+                    conj += [joined, TI(starts[got[0]]) == S[a], TI(stops[got[0]]) == z3.If(E[b] > E[a], E[b], E[a])]
+                elif k == 2:
+                    conj += [z3.Not(joined), TI(starts[got[0]]) == S[a], TI(stops[got[0]]) == E[a], TI(starts[got[1]]) == S[b], TI(stops[got[1]]) == E[b]]
+                else:
+                    return False
+            else:
+                return False
+        if pos != len(chroms):
+            return False
+        return z_and(conj)
+
+    def oracle(self, skel, cx, cout):
+        from checks.C09 import GENOMES as G9
+        genome = G9[skel["genome"]]
+        names = list(genome)
+        sizes = list(genome.values())
+        ivs, m, op = skel["ivs"], len(skel["ivs"]), skel["op"]
+        I = [(names[c], cx[f"s{i}"], cx[f"e{i}"]) for i, c in enumerate(ivs)]
+        if isinstance(cout, Exc):
+            return f"Geometry({genome}).{op} on {I} raised {cout}"
+        if op in ("mask", "pileup"):
+            exp = {nm: [sum(1 for n2, s, e in I if n2 == nm and s <= p < e) for p in range(sizes[ci])] for ci, nm in enumerate(names)}
+            if op == "mask":
+                exp = {k: [v > 0 for v in col] for k, col in exp.items()}
+            got = {k: [(bool(v) if op == "mask" else int(v)) for v in col] for k, col in cout["dense"].items()}
+            return None if got == exp else f"Geometry.{op} of {I}: {got}, expected {exp}"
+        got = list(zip(cout["rows"][0], [int(v) for v in cout["rows"][1]], [int(v) for v in cout["rows"][2]]))
+        if op == "clip":
+            exp = [(n, max(s, 0), min(e, genome[n])) for n, s, e in I]
+        elif op == "sort":
+            exp = sorted(I, key=lambda t: (names.index(t[0]), t[1]))
+            if sorted(got) == sorted(exp) and [g[:2] for g in got] == [e[:2] for e in exp]:
+                return None
+        else:
+            d = int(op[-1])
+            exp = []
+            for nm in names:
+                cur = None
+                for n2, s, e in I:
+                    if n2 != nm:
+                        continue
+                    if cur is not None and s <= cur[2] + d:
+                        cur = (nm, cur[1], max(cur[2], e))
+                    else:
+                        if cur is not None:
+                            exp.append(cur)
+                        cur = (nm, s, e)
+                if cur is not None:
+                    exp.append(cur)
+        return None if got == exp else f"Geometry({genome}).{op} of {I}: {got}, expected {exp}"
+
+
+HARNESSES = [Coords(), GenomeOps(), Binned(), ValuesUnderIntervals(), GeometryOps()]
